@@ -7,6 +7,7 @@ def bar_len(n, d):
     return PPQN * 4 * n // d
 
 
+@guarded
 def check(r, tracks, sig_plan, key_plan, quant):
     """sig_plan: list of (bars, n, d) segments; key_plan: {bar_index: keyname}.  Signatures are placed on track 0 (meta track)."""
     inp = {"tracks": tracks, "sig_plan": sig_plan, "key_plan": key_plan, "quantise_note_lengths": quant}
